@@ -21,6 +21,9 @@ var c09Atoms = append(append([]ora.Atom{}, ora.StdAtoms...),
 	ora.Atom{Name: "LAZY", Gen: func(t *ora.Tok) string {
 		return "<img data-src=\"http://example.com/img/" + t.U() + ".jpg\" data-srcset=\"http://example.com/img/" + t.U() + "-2x.jpg 2x\" class=\"lazy\" width=\"400\" height=\"300\">"
 	}},
+	ora.Atom{Name: "LAZYs", Gen: func(t *ora.Tok) string {
+		return "<img src=\"http://example.com/img/placeholder.gif\" srcset=\"http://example.com/img/placeholder.gif 1x\" data-src=\"http://example.com/img/" + t.U() + ".jpg\" data-srcset=\"http://example.com/img/" + t.U() + "-2x.jpg 2x\" class=\"lazy\" width=\"400\" height=\"300\">"
+	}},
 	ora.Atom{Name: "TBLi", Gen: func(t *ora.Tok) string {
 		return "<table><tr><th>" + t.W(1) + "</th><th>" + t.W(1) + "</th></tr><tr><td><img src=\"http://example.com/img/" + t.U() + ".jpg\"> " + t.W(2) + "</td><td>" + t.W(1) + "</td></tr><tr><td>" + t.W(1) + "</td><td>" + t.W(2) + "</td></tr></table>"
 	}},
@@ -35,11 +38,11 @@ var c09Atoms = append(append([]ora.Atom{}, ora.StdAtoms...),
 	}},
 )
 
-var c09Alphabet = []string{"Pc", "Ps", "Pb", "H", "UL3", "ULn", "BQ", "PRE", "TBLd", "TBLl", "TBLi", "IMG", "IMGss", "IMGrel", "LAZY", "PICf", "PIC", "FIG", "FIGl", "FIGe",
-	"INL", "JS1", "BR", "HIDs", "NOS", "PUN", "VID", "YT", "TW"}
+var c09Alphabet = []string{"Pc", "Ps", "Pb", "H", "UL3", "ULn", "BQ", "PRE", "TBLd", "TBLl", "TBLi", "IMG", "IMGss", "IMGrel", "LAZY", "LAZYs", "PICf", "PIC", "FIG", "FIGl", "FIGe",
+	"INL", "JS1", "BR", "HIDs", "NOS", "PUN", "VID", "YT", "TW", "TXT", "TBLh", "SIDE"}
 
 // text-only alphabet for the word-count clause
-var c09TextOnly = []string{"Pc", "Pc2", "Ps", "Pb", "UL3", "ULn", "BQ", "PRE", "INL", "JS2", "BR", "HIDs", "PUN", "DIVt", "TBLl"}
+var c09TextOnly = []string{"Pc", "Pc2", "Ps", "Pb", "UL3", "ULn", "BQ", "PRE", "INL", "JS2", "BR", "HIDs", "PUN", "DIVt", "TBLl", "SIDE", "TXT"}
 
 func c09Enumerate(tier string, emit func(*eng.Case)) {
 	atoms := c09Atoms
@@ -136,8 +139,8 @@ func init() {
 	eng.Register(&eng.Prop{
 		ID:        "C09",
 		DesignRef: "§5 C09",
-		Rule: "docspace BFS from S1,S2 with <= 2 (quick) / <= 3 (thorough) insertions over 29 atoms covering every element kind (images with src+srcset, relative URLs, lazy images, picture, tables with images, figures, embeds, punctuation), with and without page URL; " +
-			"plus the title-less text-only sub-space (15 atoms) for the WordCount clause. Oracle: words(Text) == words(visible text of result.Node) outside embed placeholders; ContentImages is an in-order subsequence of the HTML's img/source src+srcset candidates; WordCount == |words(Text)| in the text-only sub-space when Title is empty. " +
+		Rule: "docspace BFS from S1,S2 with <= 2 (quick) / <= 3 (thorough) insertions over 33 atoms covering every element kind (images with src+srcset, relative URLs, lazy images, picture, tables with images, figures, embeds, punctuation), with and without page URL; " +
+			"plus the title-less text-only sub-space (17 atoms, including a sidebar-classed link cluster so that the two extraction passes differ) for the WordCount clause. Oracle: words(Text) == words(visible text of result.Node) outside embed placeholders; ContentImages is an in-order subsequence of the HTML's img/source src+srcset candidates; WordCount == |words(Text)| in the text-only sub-space when Title is empty. " +
 			"Non-trivial = some text dropped, >= 20 words kept and (images listed or word-count clause applies).",
 		Enumerate: c09Enumerate,
 		Check:     c09Check,
